@@ -1,7 +1,8 @@
 ------------------------------ MODULE ConcCL ------------------------------
 (***************************************************************************)
 (* Threads x micro-steps model of callbacklist.h (append, prepend, insert,  *)
-(* remove, ownsHandle, empty, invoke) under sequentially consistent memory: getNextCounter as an      *)
+(* remove, ownsHandle, empty, invoke, forEach) under sequentially           *)
+(* consistent memory: getNextCounter as an                                  *)
 (* atomic step, before.lock() of insert as an unlocked step, every critical *)
 (* section as one step, the traversal as {head under the mutex; read the   *)
 (* counter; test the node's counter; step next under the mutex}.  Thread    *)
@@ -65,10 +66,11 @@ Start(t) ==
        [] Op(t).k = "insert" -> Goto(t, "i_lockh")
        [] Op(t).k = "remove" -> Goto(t, "r_lock")
        [] Op(t).k = "invoke" -> Goto(t, "v_lock")
+       [] Op(t).k = "forEach" -> Goto(t, "v_lock")        \* forEach / forEachIf: the same traversal (doForEachIf), the function sees the callbacks
        [] Op(t).k = "prepend" -> Goto(t, "a_ctr")
        [] Op(t).k = "owns" -> Goto(t, "o_lock")
        [] Op(t).k = "empty" -> Goto(t, "e_read")
-  /\ mustVisit' = [mustVisit EXCEPT ![t] = IF Op(t).k = "invoke" THEN {n \in Nodes : InSeq(alist, n)} ELSE @]
+  /\ mustVisit' = [mustVisit EXCEPT ![t] = IF Op(t).k \in {"invoke", "forEach"} THEN {n \in Nodes : InSeq(alist, n)} ELSE @]
   /\ visited' = [visited EXCEPT ![t] = <<>>]
   /\ UNCHANGED <<head, tail, nxt, prv, gen, nalloc, freed, cur, mtx, prog, ip, loc, alist, bad>>
 
